@@ -1088,7 +1088,14 @@ func genC09() *rapid.Generator[*Spec] {
 				if it.Variadic {
 					dup = it.Params[len(it.Params)-1]
 				} else {
-					dup = orig
+					// the function becomes variadic: a fixed []E and a trailing ...E
+					elem := Named(addFreshStruct(s, len(s.Pkgs)-1, x.fresh("VE")))
+					it = &s.Items[fi]
+					it.Params = append(it.Params, Slice(elem), Slice(elem))
+					it.Variadic = true
+					s.Note = "C09 dupparam variadic-elem-new"
+					refreshPlan(s)
+					return s
 				}
 			}
 			if it.Variadic {
